@@ -9,7 +9,8 @@
 #include <unistd.h>
 #include "c19_ops.h"
 
-static pthread_barrier_t bar; static int NT; static int64_t RES[64][1 + 64]; static int64_t REF[1 + 64];
+static pthread_barrier_t bar; static int NT; static int64_t RES[64][1 + 128]; static int64_t REF[1 + 128];
+static int israndom(int i) { return !strcmp(OPS[i].name, "randombytes_buf") || !strcmp(OPS[i].name, "randombytes_uniform") || !strcmp(OPS[i].name, "crypto_secretstream") || !strcmp(OPS[i].name, "crypto_box_keypair"); }
 static void *body(void *a)
 {
     int t = (int) (intptr_t) a, i;
@@ -30,7 +31,7 @@ int main(int argc, char **argv)
             for (t = 0; t < NT; t++) pthread_join(th[t], NULL);
             for (i = 0; i < NOPS; i++) REF[1 + i] = OPS[i].fn();           /* sequential values after the fact */
             for (t = 0; t < NT; t++) { if (RES[t][0] == 0) zeros++; else if (RES[t][0] != 1) { printf("FAIL free/init-return | thread %d got %ld\n", t, (long) RES[t][0]); _exit(1); }
-                for (i = 0; i < NOPS; i++) if (RES[t][1 + i] != REF[1 + i] && i != 12 && i != 13 && i != 20 && i != 21) { printf("FAIL free/result/%s | thread %d result differs from the sequential result\n", OPS[i].name, t); _exit(1); } }
+                for (i = 0; i < NOPS; i++) if (RES[t][1 + i] != REF[1 + i] && !israndom(i)) { printf("FAIL free/result/%s | thread %d result differs from the sequential result\n", OPS[i].name, t); _exit(1); } }
             if (zeros != 1) { printf("FAIL free/init-once | %d threads got 0 from sodium_init\n", zeros); _exit(1); }
             _exit(0);
         }
